@@ -138,6 +138,11 @@ def run_verus(unit_names, canary=False, seed=None, strict=False, keep=None, extr
         for u in active:
             for t in u.get('uses_types', []):
                 need(t)
+        # a transparent declaration of a type replaces its opaque one (e.g. CellT replaces Cell)
+        for t in list(need_ext):
+            for rp in cfg.TYPE_EXT[t].get('replaces', []):
+                if rp in need_ext:
+                    need_ext.remove(rp)
         by_file = {}
         for u in active:
             by_file.setdefault(u['file'], []).append(u)
